@@ -12,6 +12,8 @@
 #include <asl/WebSocket.h>
 #include <asl/HttpServer.h>
 #include <sys/socket.h>
+#include <sys/ioctl.h>
+#include <atomic>
 #include <sys/time.h>
 #include <netinet/in.h>
 #include <netinet/tcp.h>
@@ -99,19 +101,70 @@ static void set_timeouts(int fd)
 	setsockopt(fd, IPPROTO_TCP, TCP_QUICKACK, &one, sizeof one);
 }
 
+// State shared by the two ends of a loopback session, so that the end that is WAITING can see that the other end is
+// stuck inside receive(): the peer entered receive() (epoch odd), has consumed every byte that was sent to it
+// (FIONREAD on its socket is 0), the waiting end is its only source and is not sending -- so the peer wants more
+// bytes than the message has (a misread frame length).  The state must persist for STUCK_S seconds (the gap between
+// a receive()'s last read and its return is microseconds); the verdict is confirmed by the driver in fresh processes.
+struct Watch {
+	std::atomic<unsigned> epoch[2]; // [0] client, [1] server: odd while inside receive()
+	std::atomic<int> fd[2];
+	Watch()
+	{
+		epoch[0] = epoch[1] = 0;
+		fd[0] = fd[1] = -1;
+	}
+};
+static const int STUCK_S = 5;
+
 // next non-empty receive() result (an empty result is the library's "no message" value)
-static bool next_msg(WebSocket& ws, std::string& out, int& empties, std::string& why)
+static bool next_msg(WebSocket& ws, std::string& out, int& empties, std::string& why, Watch* w = 0, int me = 0)
 {
 	for (int spins = 0; spins < 1000000; spins++) {
 		if (ws.closed()) {
 			why = "connection closed while a message was expected";
 			return false;
 		}
-		if (!ws.wait(HANG_S)) {
-			why = vf::str("no input within ", HANG_S, " s while a message was expected");
-			return false;
+		if (!w) {
+			if (!ws.wait(HANG_S)) {
+				why = vf::str("no input within ", HANG_S, " s while a message was expected");
+				return false;
+			}
 		}
+		else {
+			// wait in slices and watch the peer
+			double t0 = vf::now(), stuck_since = -1;
+			unsigned stuck_epoch = 0;
+			for (;;) {
+				if (ws.wait(0.2))
+					break;
+				double t = vf::now();
+				if (t - t0 > HANG_S) {
+					why = vf::str("no input within ", HANG_S, " s while a message was expected");
+					return false;
+				}
+				unsigned e = w->epoch[1 - me];
+				int pfd = w->fd[1 - me];
+				int avail = -1;
+				bool stuck = (e & 1) && pfd >= 0 && ioctl(pfd, FIONREAD, &avail) == 0 && avail == 0;
+				if (!stuck || (stuck_since >= 0 && e != stuck_epoch))
+					stuck_since = -1;
+				if (stuck && stuck_since < 0) {
+					stuck_since = t;
+					stuck_epoch = e;
+				}
+				if (stuck && t - stuck_since > STUCK_S) {
+					why = vf::str("the ", me ? "client" : "server", "'s receive() does not return: it has consumed every byte sent to it and waits for more (for ", STUCK_S,
+					              " s) -- it expects a longer frame than was sent");
+					return false;
+				}
+			}
+		}
+		if (w)
+			w->epoch[me]++;
 		WebSocketMsg m = ws.receive();
+		if (w)
+			w->epoch[me]++;
 		if (m.length() < 0) {
 			why = vf::str("receive() returned a message of length ", m.length());
 			return false;
@@ -159,6 +212,7 @@ struct Script {
 	bool done = false;
 	std::string err;
 	int empties = 0;
+	Watch watch;
 	void finish(const std::string& e)
 	{
 		std::lock_guard<std::mutex> l(mu);
@@ -183,7 +237,7 @@ static std::string server_script(WebSocket& ws, Script& sc)
 			do_send(ws, st.type, gen_payload(st.type, st.len, st.seed), st.api);
 			continue;
 		}
-		if (!next_msg(ws, got, sc.empties, why))
+		if (!next_msg(ws, got, sc.empties, why, &sc.watch, 1))
 			return vf::str("server, step ", i, " (len ", st.len, "): ", why);
 		std::string want = gen_payload(st.type, st.len, st.seed);
 		if (got != want)
@@ -191,7 +245,7 @@ static std::string server_script(WebSocket& ws, Script& sc)
 		if (st.dir == 2)
 			do_send(ws, st.type, got, st.api + 1);
 	}
-	if (!next_msg(ws, got, sc.empties, why))
+	if (!next_msg(ws, got, sc.empties, why, &sc.watch, 1))
 		return "server, end marker: " + why;
 	if (got != "F")
 		return vf::str("server: an extra message arrived after the last scripted one (", got.size(), " bytes) instead of the end marker");
@@ -226,7 +280,10 @@ struct Srv : public WebSocketServer {
 			}
 			if (!sc)
 				return;
-			sc->finish(server_script(ws, *sc));
+			sc->watch.fd[1] = Peek::sock(ws).handle();
+			std::string e = server_script(ws, *sc);
+			sc->watch.fd[1] = -1;
+			sc->finish(e);
 		}
 	}
 };
@@ -275,75 +332,60 @@ static long long clamp_len(long long v, long long maxv)
 
 static const long long MAX_LEN = 8ll << 20;
 
-// ops:  conn via            (0 WebSocketServer directly, 1 through HttpServer::link)
+// ops:  conn via            (0 WebSocketServer directly, 1 through HttpServer::link).  The first one opens the first
+//                           session; every later one (after at least one message) close()s the client WebSocket and
+//                           connect()s THE SAME OBJECT again for the following messages (object reuse).
 //       m dir type len seed api
-static void run_loop(const vf::Case& c)
-{
-	auto sc = std::make_shared<Script>();
+struct Session {
 	int via = 0;
-	for (auto& o : c.ops) {
-		if (o.name == "conn")
-			via = (int)(o.i(0) & 1);
-		else if (o.name == "m") {
-			Step st;
-			st.dir = (int)(((o.i(0) % 3) + 3) % 3);
-			st.type = (int)(o.i(1) & 1);
-			st.len = clamp_len(o.i(2), MAX_LEN);
-			st.seed = (uint64_t)o.i(3);
-			st.api = (int)(o.i(4) & 0xff);
-			sc->steps.push_back(st);
-		}
-	}
-	if (sc->steps.empty())
-		return;
-	if (g_hung && g_searching) {
-		vf::stats().discarded++;
-		return;
-	}
-	double t_start = vf::now();
+	std::shared_ptr<Script> sc;
+	uint64_t id = 0;
+};
+
+// one session on the (possibly reused) client object; returns the client-side error, fills serr
+static std::string loop_session(WebSocket& ws, Session& se, int round, int& empties, std::string& serr)
+{
 	Servers& sv = servers();
-	uint64_t id;
+	auto& sc = se.sc;
 	{
 		std::lock_guard<std::mutex> l(g_mu);
-		id = g_next_id++;
-		g_scripts[id] = sc;
+		se.id = g_next_id++;
+		g_scripts[se.id] = sc;
 	}
 	std::string cerr_;
-	int empties = 0;
-	{
-		WebSocket ws;
-		bool ok = ws.connect("127.0.0.1", via ? sv.port_http : sv.port_direct);
-		if (!ok)
-			cerr_ = "client: connect()/handshake failed";
-		else {
-			set_timeouts(Peek::sock(ws).handle());
-			seed_masks(ws, sc->steps[0].seed * 31 + sc->steps.size());
-			std::string ctl = "S" + std::string((const char*)&id, 8);
-			ws.send((const byte*)ctl.data(), 9, WebSocket::FRAME_BINARY);
-			std::string got, why;
-			for (size_t i = 0; i < sc->steps.size() && cerr_.empty(); i++) {
-				const Step& st = sc->steps[i];
-				std::string want = gen_payload(st.type, st.len, st.seed);
-				if (st.dir != 1)
-					do_send(ws, st.type, want, st.api);
-				if (st.dir != 0) {
-					if (!next_msg(ws, got, empties, why))
-						cerr_ = vf::str("client, step ", i, " (len ", st.len, "): ", why);
-					else if (got != want)
-						cerr_ = vf::str("client, step ", i, ": message from the server differs: ", diff(got, want));
-				}
-			}
-			if (cerr_.empty()) {
-				ws.send("F");
-				if (!next_msg(ws, got, empties, why))
-					cerr_ = "client, end marker: " + why;
-				else if (got != "F")
-					cerr_ = vf::str("client: an extra message arrived after the last scripted one (", got.size(), " bytes) instead of the end marker");
+	Watch* w = &sc->watch;
+	bool ok = ws.connect("127.0.0.1", se.via ? sv.port_http : sv.port_direct);
+	if (!ok)
+		cerr_ = round ? vf::str("client: connect()/handshake failed on the reused WebSocket object (round ", round, ")") : std::string("client: connect()/handshake failed");
+	else {
+		w->fd[0] = Peek::sock(ws).handle();
+		set_timeouts(Peek::sock(ws).handle());
+		seed_masks(ws, sc->steps[0].seed * 31 + sc->steps.size());
+		std::string ctl = "S" + std::string((const char*)&se.id, 8);
+		ws.send((const byte*)ctl.data(), 9, WebSocket::FRAME_BINARY);
+		std::string got, why;
+		for (size_t i = 0; i < sc->steps.size() && cerr_.empty(); i++) {
+			const Step& st = sc->steps[i];
+			std::string want = gen_payload(st.type, st.len, st.seed);
+			if (st.dir != 1)
+				do_send(ws, st.type, want, st.api);
+			if (st.dir != 0) {
+				if (!next_msg(ws, got, empties, why, w, 0))
+					cerr_ = vf::str("client, step ", i, " (len ", st.len, "): ", why);
+				else if (got != want)
+					cerr_ = vf::str("client, step ", i, ": message from the server differs: ", diff(got, want));
 			}
 		}
-		ws.close();
+		if (cerr_.empty()) {
+			ws.send("F");
+			if (!next_msg(ws, got, empties, why, w, 0))
+				cerr_ = "client, end marker: " + why;
+			else if (got != "F")
+				cerr_ = vf::str("client: an extra message arrived after the last scripted one (", got.size(), " bytes) instead of the end marker");
+		}
 	}
-	std::string serr;
+	w->fd[0] = -1;
+	ws.close();
 	{
 		std::unique_lock<std::mutex> l(sc->mu);
 		bool fin = sc->cv.wait_for(l, std::chrono::seconds(cerr_.empty() ? HANG_S : 20), [&] { return sc->done; });
@@ -354,12 +396,68 @@ static void run_loop(const vf::Case& c)
 	}
 	{
 		std::lock_guard<std::mutex> l(g_mu);
-		g_scripts.erase(id);
+		g_scripts.erase(se.id);
 	}
-	vf::stats().cls("loop.empty_results", (uint64_t)(empties + sc->empties));
-	if (!(cerr_.empty() && serr.empty()) && vf::now() - t_start > HANG_S / 2)
+	empties += sc->empties;
+	return cerr_;
+}
+
+static std::vector<Session> loop_sessions(const vf::Case& c)
+{
+	std::vector<Session> ss;
+	int via = 0;
+	bool fresh = true; // the next message starts a new session
+	for (auto& o : c.ops) {
+		if (o.name == "conn") {
+			via = (int)(o.i(0) & 1);
+			fresh = true;
+		}
+		else if (o.name == "m") {
+			if (fresh || ss.empty()) {
+				Session se;
+				se.via = via;
+				se.sc = std::make_shared<Script>();
+				ss.push_back(se);
+				fresh = false;
+			}
+			Step st;
+			st.dir = (int)(((o.i(0) % 3) + 3) % 3);
+			st.type = (int)(o.i(1) & 1);
+			st.len = clamp_len(o.i(2), MAX_LEN);
+			st.seed = (uint64_t)o.i(3);
+			st.api = (int)(o.i(4) & 0xff);
+			ss.back().sc->steps.push_back(st);
+		}
+	}
+	return ss;
+}
+
+static void run_loop(const vf::Case& c)
+{
+	std::vector<Session> ss = loop_sessions(c);
+	if (ss.empty())
+		return;
+	if (g_hung && g_searching) {
+		vf::stats().discarded++;
+		return;
+	}
+	double t_start = vf::now();
+	int empties = 0;
+	std::string cerr_, serr;
+	size_t round = 0;
+	{
+		WebSocket ws; // ONE object for all sessions of the case
+		for (; round < ss.size(); round++) {
+			cerr_ = loop_session(ws, ss[round], (int)round, empties, serr);
+			if (!cerr_.empty() || !serr.empty())
+				break;
+		}
+	}
+	vf::stats().cls("loop.empty_results", (uint64_t)empties);
+	if (!(cerr_.empty() && serr.empty()) && vf::now() - t_start > STUCK_S - 1) // a hang-type failure: do not spend the bound on every shrink candidate
 		g_hung = true;
-	VF_CHECK(cerr_.empty() && serr.empty(), cerr_, cerr_.empty() || serr.empty() ? "" : " / ", serr);
+	std::string where = ss.size() > 1 ? vf::str("session ", round + 1, " of ", ss.size(), " on the same WebSocket object", round ? " (after close() + connect())" : "", ": ") : std::string();
+	VF_CHECK(cerr_.empty() && serr.empty(), where, cerr_, cerr_.empty() || serr.empty() ? "" : " / ", serr);
 }
 
 // ---------------------------------------------------------------------------------------------------------------
@@ -1145,6 +1243,26 @@ static void classify_in(const vf::Case& c)
 
 static bool run1(const std::string& part, const vf::Case& c) { return vf::runner().run(part, c); }
 
+// reuse of one client WebSocket object: sessions after the first, and what the reused object has to RECEIVE
+static void classify_reuse(const vf::Case& c)
+{
+	std::vector<Session> ss = loop_sessions(c);
+	auto& st = vf::stats();
+	if (ss.size() < 2)
+		return;
+	st.cls("loop.reuse.cases");
+	st.cls("loop.reuse.sessions_after_close", ss.size() - 1);
+	for (size_t k = 1; k < ss.size(); k++) {
+		st.cls(ss[k].via ? "loop.reuse.via_httpserver_link" : "loop.reuse.via_websocketserver");
+		for (auto& m : ss[k].sc->steps) {
+			if (m.dir == 0)
+				st.cls("loop.reuse.client_sends");
+			else
+				st.cls(m.len < 126 ? "loop.reuse.client_receives_len7" : m.len < 65536 ? "loop.reuse.client_receives_len16" : "loop.reuse.client_receives_len64");
+		}
+	}
+}
+
 static const unsigned long long HOSTILE_LENGTHS[][2] = {
     // {form, declared}
     {0, 0}, {0, 1}, {0, 5}, {0, 125},
@@ -1228,7 +1346,8 @@ void vf_search(const vf::Args& a)
 		                    [](const std::tuple<int, int, int, int, int>& t) {
 			                    return vf::Op("m", {std::get<0>(t), std::get<1>(t), std::get<2>(t), std::get<3>(t), std::get<4>(t)});
 		                    });
-		auto g = gen::map(gen::pair(vf::irange<int>(0, 1), gen::nonEmpty(gen::container<std::vector<vf::Op>>(mop))), [](const std::pair<int, std::vector<vf::Op>>& p) {
+		auto cop = gen::map(vf::irange<int>(0, 1), [](int v) { return vf::Op("conn", {v}); }); // close() + connect() on the same object
+		auto g = gen::map(gen::pair(vf::irange<int>(0, 1), gen::nonEmpty(gen::container<std::vector<vf::Op>>(gen::weightedOneOf<vf::Op>({{8, mop}, {1, cop}})))), [](const std::pair<int, std::vector<vf::Op>>& p) {
 			vf::Case c;
 			c.add(vf::Op("conn", {p.first}));
 			for (size_t i = 0; i < p.second.size() && i < 20; i++)
@@ -1237,6 +1356,7 @@ void vf_search(const vf::Args& a)
 		});
 		vf::check_cases("loop", a.n(1000, 12000), 20, g, [&](const vf::Case& c) {
 			bool nt = false;
+			classify_reuse(c);
 			for (auto& o : c.ops)
 				if (o.name == "m") {
 					if (near_boundary(o.i(2)))
@@ -1272,6 +1392,41 @@ void vf_search(const vf::Args& a)
 		}
 	};
 
+	// ---- A4: one client WebSocket object reused: connect, exchange, close(), connect() again (same or other server),
+	//          several rounds; in every round the client RECEIVES lengths on both sides of 125/126 and 65535/65536
+	auto sec_A4 = [&]() {
+		static const int B[] = {125, 126, 127, 124, 128, 65535, 65536, 65537, 300, 1, 70000, 65534};
+		const int NB = sizeof B / sizeof B[0];
+		long ncases = a.n(32, 400);
+		uint64_t cases = 0;
+		ref::SplitMix r(a.seed * 15485863 + 77);
+		for (long k = 0; k < ncases; k++) {
+			vf::Case c;
+			int rounds = 2 + (int)r.below(4);
+			for (int rd = 0; rd < rounds; rd++) {
+				c.add(vf::Op("conn", {(long long)r.below(2)}));
+				int nm = 2 + (int)r.below(3);
+				for (int m = 0; m < nm; m++) {
+					int len = B[(k + rd * 3 + m) % NB];
+					if (r.below(4) == 0)
+						len = std::max(1, len + (int)r.below(5) - 2);
+					// mostly server->client or echo (the reused object receives), sometimes client->server
+					int dir = r.below(5) == 0 ? 0 : 1 + (int)r.below(2);
+					c.add(vf::Op("m", {dir, (long long)r.below(2), len, (long long)r.below(1 << 30), (long long)r.below(3)}));
+				}
+			}
+			if ((int)(k % a.workers) != a.worker)
+				continue;
+			if (!run1("loop", c))
+				return;
+			cases++;
+			st.nt(vf::fnv(vf::serialize(c)));
+			classify_reuse(c);
+			if (k == 0)
+				st.sample("loop (reused object): " + vf::serialize(c));
+		}
+		st.part("loop.reused_client_object", cases, false);
+	};
 	// ---- B-in 1: every length, single frame and 2..4 fragments, both roles, masked and not
 	[&]() {
 		uint64_t cases = 0, idx = 0;
@@ -1514,6 +1669,7 @@ void vf_search(const vf::Args& a)
 		sec_A1();
 		sec_A2();
 		sec_A3();
+		sec_A4();
 		lap("loop");
 	}
 	else
